@@ -341,7 +341,9 @@ def run_check(pid: str, tier: str, base_seed: int, jobs: int) -> int:
         kf = match_finding(findings, pid, sig)
         if kf is not None:
             known_hit.append({"id": kf.get("id"), "signature": sig, "count": total["per_sig"].get(sig, 0)})
-            lines.append(f"KNOWN-FINDING: property={pid} {kf.get('id')}: {kf.get('what')} [sig={sig}; hit {total['per_sig'].get(sig, 0)}x]")
+            if not any(l.startswith(f"KNOWN-FINDING: property={pid} {kf.get('id')}:") for l in lines):
+                lines.append(f"KNOWN-FINDING: property={pid} {kf.get('id')}: {kf.get('what')}")
+            lines.append(f"  [known {kf.get('id')}] sig={sig} hit {total['per_sig'].get(sig, 0)}x")
             if os.environ.get("VERIF_KEEP_KNOWN"):
                 # materialise a minimised replay of the recorded finding under /verif/findings (manual, never in a registered check)
                 small = shrink(mod, rec["scenario"], sig)
@@ -392,7 +394,8 @@ def run_check(pid: str, tier: str, base_seed: int, jobs: int) -> int:
     write_evidence(mod, pid, tier, base_seed, total, n_sys, wall_s, known_hit, len([l for l in lines if l.startswith("VIOLATION")]), jobs, params)
     for l in lines:
         print(l, flush=True)
-    zero_probes = [k for k in getattr(mod, "PROBES", []) if not total["probes"].get(k)]
+    want_probes = list(getattr(mod, "PROBES", [])) + (list(getattr(mod, "PROBES_THOROUGH", [])) if tier == "thorough" else [])
+    zero_probes = [k for k in want_probes if not total["probes"].get(k)]
     if zero_probes:
         print(f"WARNING: probes never hit: {zero_probes}")
     print(f"{pid} {tier}: runs={total['n']} (systematic {n_sys}) nontrivial={total['nontrivial']} "
